@@ -329,9 +329,9 @@ func main() {
 				results[i], ch = ch.run(cases[i], time.Duration(t)*time.Millisecond)
 				if results[i].Got.Err == "hang" && cases[i].Tmo == 0 && t < capMs {
 					// an unexpected hang under the adaptive timeout may be a load spike: one retry with a longer one
-					t2 := 3 * t
-					if t2 < 15000 {
-						t2 = 15000
+					t2 := 2 * t
+					if t2 < 8000 {
+						t2 = 8000
 					}
 					if t2 > capMs {
 						t2 = capMs
